@@ -43,12 +43,12 @@ fn block_on_count<F: Future>(fut: F) -> (F::Output, usize) {
 fn do_await(i: usize) -> String {
     let b0 = BODY[i].load(SeqCst); let e0 = EVAL[i].load(SeqCst);
     let (val, polls) = match i {
-        0 => { let (v, p) = block_on_count(a0(5)); ((if v == 105 { "o".to_string() } else if v >= 90000 { "x".to_string() } else if v >= 80000 { format!("g{}", v - 80000) } else if v >= 70000 { format!("f{}", v - 70000) } else if v >= 60000 { "s".to_string() } else { "?".into() }), p) }
+        0 => { let (v, p) = block_on_count(a0(5)); ((if v == 105 { "o".to_string() } else if v >= 90000 { "x".to_string() } else if v >= 80000 { format!("g{}", v - 80000) } else if v >= 70000 { format!("f{}", v - 70000) } else if v >= 60000 { "s".to_string() } else if v >= 50000 { "r".to_string() } else { "?".into() }), p) }
         1 => { let (v, p) = block_on_count(a1("k")); ((if v == "orig:k" { "o".to_string() } else if let Some(r) = v.strip_prefix("fake:") { format!("f{r}") } else if let Some(r) = v.strip_prefix("fakeB:") { format!("g{r}") } else if v.starts_with("fakeX:") { "x".to_string() } else { "?".into() }), p) }
         2 => { let (_, p) = block_on_count(a2()); ("u".to_string(), p) }
         3 => { let (v, p) = block_on_count(a3(9)); ((if v == [9u64; 17] { "o".to_string() } else if v[0] >= 90000 && v.iter().all(|x| *x == v[0]) { "x".to_string() } else if v[0] >= 80000 && v.iter().all(|x| *x == v[0]) { format!("g{}", v[0] - 80000) } else if v[0] >= 70000 && v.iter().all(|x| *x == v[0]) { format!("f{}", v[0] - 70000) } else { "?".into() }), p) }
-        4 => { let (v, p) = block_on_count(a4(5)); ((if v == 405 { "o".to_string() } else if v >= 90000 { "x".to_string() } else if v >= 80000 { format!("g{}", v - 80000) } else if v >= 70000 { format!("f{}", v - 70000) } else if v >= 60000 { "s".to_string() } else { "?".into() }), p) }
-        _ => { let s = S(1); let (v, p) = block_on_count(s.m0(5)); ((if v == 506 { "o".to_string() } else if v >= 90000 { "x".to_string() } else if v >= 80000 { format!("g{}", v - 80000) } else if v >= 70000 { format!("f{}", v - 70000) } else if v >= 60000 { "s".to_string() } else { "?".into() }), p) }
+        4 => { let (v, p) = block_on_count(a4(5)); ((if v == 405 { "o".to_string() } else if v >= 90000 { "x".to_string() } else if v >= 80000 { format!("g{}", v - 80000) } else if v >= 70000 { format!("f{}", v - 70000) } else if v >= 60000 { "s".to_string() } else if v >= 50000 { "r".to_string() } else { "?".into() }), p) }
+        _ => { let s = S(1); let (v, p) = block_on_count(s.m0(5)); ((if v == 506 { "o".to_string() } else if v >= 90000 { "x".to_string() } else if v >= 80000 { format!("g{}", v - 80000) } else if v >= 70000 { format!("f{}", v - 70000) } else if v >= 60000 { "s".to_string() } else if v >= 50000 { "r".to_string() } else { "?".into() }), p) }
     };
     format!("{i}:{val}:{polls}:{}:{}", BODY[i].load(SeqCst) - b0, EVAL[i].load(SeqCst) - e0)
 }
@@ -108,6 +108,32 @@ fn do_fake_shared(inj: &mut InjectorPP, i: usize) {
     else { inj.when_called_async(injectorpp::async_func!(a4(0), u32)).will_return_async(shared_fake()) }
 }
 
+/// a fake that lives in ANOTHER mapping, 2-4 GiB away from the executable (a plugin, a JIT stub): a thunk `movabs rax, far_poll ; jmp rax` in a page
+/// mapped there, handed over through the public FuncPtr::new with the signature async_return! would give
+fn far_poll() -> Poll<u32> { Poll::Ready(50000) }
+fn do_fake_far(inj: &mut InjectorPP, i: usize) {
+    let here = far_poll as usize as u64 & !0xfff;
+    let mut at = 0u64;
+    for gib in [3u64, 5, 7] {            // 3.0, 2.5, 3.5 GiB above; else below
+        for sign in [1i64, -1] {
+            let c = (here as i64 + sign * (gib as i64 * (1 << 29) + (1 << 30))) as u64;
+            let p = unsafe { crate::interpose::raw_mmap(c as *mut libc::c_void, 4096, libc::PROT_READ | libc::PROT_WRITE, libc::MAP_PRIVATE | libc::MAP_ANONYMOUS | libc::MAP_FIXED_NOREPLACE, -1, 0) };
+            if p as u64 == c { at = c; break; }
+        }
+        if at != 0 { break; }
+    }
+    assert!(at != 0, "no room 2-4 GiB from the executable");
+    unsafe {
+        let p = at as *mut u8;
+        *p = 0x48; *p.add(1) = 0xB8;
+        std::ptr::copy_nonoverlapping((far_poll as usize as u64).to_le_bytes().as_ptr(), p.add(2), 8);
+        *p.add(10) = 0xFF; *p.add(11) = 0xE0;
+        crate::interpose::raw_mprotect(at as *mut libc::c_void, 4096, libc::PROT_READ | libc::PROT_EXEC);
+        let fake = FuncPtr::new(at as *const (), std::any::type_name::<fn() -> Poll<u32>>());
+        if i == 0 { inj.when_called_async(injectorpp::async_func!(a0(0), u32)).will_return_async(fake) } else { inj.when_called_async(injectorpp::async_func!(a4(0), u32)).will_return_async(fake) }
+    }
+}
+
 fn one(line: &str) -> String {
     let mut it = line.split_whitespace();
     let id = it.next().unwrap();
@@ -119,11 +145,11 @@ fn one(line: &str) -> String {
     for op in ops {
         let t: Vec<&str> = op.split(':').collect();
         match t[0] {
-            "F" | "G" | "S" => { if let Some(j) = inj.as_mut() {
+            "F" | "G" | "S" | "R" => { if let Some(j) = inj.as_mut() {
                     // an installation (first or repeated) only ever writes branches: a trampoline and the entry patch.  Bytes that are not a branch,
                     // flushed while the injector lives, mean the function was taken back to its original code in between (un-faked for a while)
                     crate::interpose::reset(); crate::interpose::RECORD.store(true, SeqCst);
-                    if t[0] == "F" { do_fake(j, t[1].parse().unwrap()) } else if t[0] == "G" { do_fake_b(j, t[1].parse().unwrap()) } else { do_fake_shared(j, t[1].parse().unwrap()) }
+                    if t[0] == "F" { do_fake(j, t[1].parse().unwrap()) } else if t[0] == "G" { do_fake_b(j, t[1].parse().unwrap()) } else if t[0] == "S" { do_fake_shared(j, t[1].parse().unwrap()) } else { do_fake_far(j, t[1].parse().unwrap()) }
                     crate::interpose::RECORD.store(false, SeqCst);
                     let mut bad = 0;
                     for k in 0..crate::interpose::len() { let e = crate::interpose::get(k);
